@@ -124,6 +124,21 @@ TSeqOf(t, size) == [k |-> "SEQOF", t |-> t, size |-> size]
 TSetOf(t, size) == [k |-> "SETOF", t |-> t, size |-> size]
 TTag(cl, num, mode, t) == [k |-> "TAGGED", cl |-> cl, num |-> num, mode |-> mode, t |-> t]
 TRef(n) == [k |-> "REF", n |-> n]
+\* Information object classes (X.681 / X.682, C18).  An open type governed by an object set: the rows pair an
+\* identifier value with a type; comps names the rows by their type name (as the XML tag and the C union do).
+\* TIoSeq is the SEQUENCE { id CLS.&id({Set}), val CLS.&Type({Set}{@id}) }.
+\* The identifier field is an INTEGER (Row) or an OBJECT IDENTIFIER (RowO); one kind per object set.
+Row(id, n, t) == [n |-> n, t |-> t, o |-> "M", id |-> id, oid |-> <<>>]
+RowO(arcs, n, t) == [n |-> n, t |-> t, o |-> "M", id |-> 0, oid |-> arcs]
+TOpen(rows, ext) == [k |-> "OPEN", comps |-> rows, ext |-> ext, adds |-> <<>>]
+TIoId == [k |-> "INTEGER", c |-> CNone, io |-> TRUE]
+TIoOid == [k |-> "OID", io |-> TRUE]
+OidRows(rows) == rows[1].oid # <<>>
+TIoSeq(rows, ext, sfx) == [k |-> "SEQUENCE", comps |-> <<Comp("id" \o sfx, IF OidRows(rows) THEN TIoOid ELSE TIoId, "M"),
+                                                        Comp("val" \o sfx, TOpen(rows, ext), "M")>>,
+                            ext |-> FALSE, adds |-> <<>>, ioc |-> TRUE]
+IsIoSeq(T) == T.k = "SEQUENCE" /\ "ioc" \in DOMAIN T
+ChoiceLike(k) == k \in {"CHOICE", "OPEN"}
 
 StringKinds == {"IA5", "Visible", "Printable", "Numeric", "UTF8", "BMP", "Universal",
                 "UTCTime", "GeneralizedTime"}
@@ -203,7 +218,7 @@ NormVal(env, T0, v) ==
                IF IsPres(v[i]) THEN Pres(NormVal(env, cs[i].t, v[i][1]))
                ELSE IF cs[i].o = "D" THEN Pres(NormVal(env, cs[i].t, cs[i].d))
                ELSE Absent]
-    [] T.k = "CHOICE" -> MkAlt(AltOf(v), NormVal(env, CompByName(T, AltOf(v)).t, AltVal(v)))
+    [] ChoiceLike(T.k) -> MkAlt(AltOf(v), NormVal(env, CompByName(T, AltOf(v)).t, AltVal(v)))
     [] T.k \in {"SEQOF", "SETOF"} -> [i \in DOMAIN v |-> NormVal(env, T.t, v[i])]
     [] OTHER -> v
 
@@ -219,7 +234,7 @@ SameValue(env, T0, a, b) ==
             /\ \A i \in DOMAIN cs :
                  LET x == eff(a, i) y == eff(b, i)
                  IN IsPres(x) = IsPres(y) /\ (IsPres(x) => SameValue(env, cs[i].t, x[1], y[1]))
-    [] T.k = "CHOICE" -> /\ AltOf(a) = AltOf(b)
+    [] ChoiceLike(T.k) -> /\ AltOf(a) = AltOf(b)
                          /\ SameValue(env, CompByName(T, AltOf(a)).t, AltVal(a), AltVal(b))
     [] T.k = "SEQOF" -> Len(a) = Len(b) /\ \A i \in DOMAIN a : SameValue(env, T.t, a[i], b[i])
     [] T.k = "SETOF" ->
@@ -245,9 +260,26 @@ Valid(env, T0, v) ==
          LET cs == AllComps(T) IN
          /\ \A i \in DOMAIN T.comps : T.comps[i].o = "M" => IsPres(v[i])
          /\ \A i \in DOMAIN cs : IsPres(v[i]) => Valid(env, cs[i].t, v[i][1])
-    [] T.k = "CHOICE" -> Valid(env, CompByName(T, AltOf(v)).t, AltVal(v))
+    [] ChoiceLike(T.k) -> Valid(env, CompByName(T, AltOf(v)).t, AltVal(v))
     [] T.k \in {"SEQOF", "SETOF"} ->
          /\ Sat(T.size, IOfInt(Len(v)), BI(0), BMax)
          /\ \A i \in DOMAIN v : Valid(env, T.t, v[i])
+    [] OTHER -> TRUE
+\* ---- component relation constraint (X.682 10): the open type value is of the type the object set
+\* pairs with the identifier value (C18)
+IdVal(r) == IF r.oid # <<>> THEN r.oid ELSE IOfInt(r.id)
+IoRows(T) == T.comps[2].t.comps
+RECURSIVE IocConsistent(_, _, _)
+IocConsistent(env, T0, v) ==
+  LET T == Resolve(env, T0) IN
+  CASE IsIoSeq(T) ->
+         /\ IsPres(v[1]) /\ IsPres(v[2])
+         /\ \E i \in DOMAIN IoRows(T) : /\ IoRows(T)[i].n = AltOf(v[2][1])
+                                       /\ SameValue(env, T.comps[1].t, IdVal(IoRows(T)[i]), v[1][1])
+         /\ IocConsistent(env, CompByName(T.comps[2].t, AltOf(v[2][1])).t, AltVal(v[2][1]))
+    [] T.k \in {"SEQUENCE", "SET"} ->
+         \A i \in DOMAIN AllComps(T) : IsPres(v[i]) => IocConsistent(env, AllComps(T)[i].t, v[i][1])
+    [] T.k = "CHOICE" -> IocConsistent(env, CompByName(T, AltOf(v)).t, AltVal(v))
+    [] T.k \in {"SEQOF", "SETOF"} -> \A i \in DOMAIN v : IocConsistent(env, T.t, v[i])
     [] OTHER -> TRUE
 =============================================================================
